@@ -16,7 +16,20 @@ def random_program(rng, ntests, maxset):
             ph.append((sets, rng.choice(evs)))
         tests.append({"g": "G", "n": "t%d" % i, "ign": False, "ph": ph})
     plugins = [("P%d" % (j + 1), rng.random() < 0.7, rng.random() < 0.2) for j in range(rng.choice([0, 1, 3, 5]))]
-    return {"repeat": rng.choice([1, 2]), "reverse": False, "shuffle": False, "runIgnored": False, "gf": [], "nf": [], "plugins": plugins,
+    repeat = rng.choice([1, 2])
+    if rng.random() < 0.5:
+        # plugins installed and removed (by name, at any chain position, including the head) between the tests of one run
+        repeat = 1
+        names = [p[0] for p in plugins]; q = 0
+        for t in tests[:-1]:
+            ops = []
+            for _ in range(rng.choice([0, 0, 1, 1, 2])):
+                if names and rng.random() < 0.5:
+                    n = rng.choice(names); names.remove(n); ops.append(("remove", n))
+                else:
+                    q += 1; n = "Q%d" % q; names.insert(0, n); ops.append(("install", n))
+            t["after"] = ops
+    return {"repeat": repeat, "reverse": False, "shuffle": False, "runIgnored": False, "gf": [], "nf": [], "plugins": plugins,
             "draws": None, "seed": 7, "tests": tests}
 
 
